@@ -1,3 +1,6 @@
+#[cfg(folo_verif)]
+use std::sync::Arc;
+#[cfg(not(folo_verif))]
 use std::sync::{Arc, OnceLock};
 
 #[cfg(not(folo_verif))]
@@ -6,7 +9,7 @@ use many_cpus::{MemoryRegionId, SystemHardware};
 use rsevents::{Awaitable, EventState, ManualResetEvent};
 
 #[cfg(folo_verif)]
-use crate::__verif::sync::ArcSwapOption;
+use crate::__verif::sync::{ArcSwapOption, OnceLock};
 
 /// Provides access to an instance of `T` whose values are local to the current memory region.
 /// Callers from different memory regions will observe different instances of `T`.
